@@ -14,7 +14,7 @@ from translate import problems_tr as PT  # noqa: E402
 HEADER = """From Coq Require Import Reals List Lra.
 From Coquelicot Require Import Coquelicot.
 From Interval Require Import Tactic.
-From IOptV Require Import Problems.Families.
+From IOptV Require Import Problems.Families Problems.Locate.
 Import ListNotations.
 Open Scope R_scope.
 """
@@ -127,6 +127,32 @@ def instance_1d(repo, family, k):
                 lemma('c18_max_sep_left', forall(lo, x0 - w, 'f_%s %s - f_%s x0 > 0' % (nm, r(x0), nm)), 'intros x0 H. %s interval with (%s).' % (un, OPT1))
             if x0 + w < hi:
                 lemma('c18_max_sep_right', forall(x0 + w, hi, 'f_%s %s - f_%s x0 > 0' % (nm, r(x0), nm)), 'intros x0 H. %s interval with (%s).' % (un, OPT1))
+    # ---- C18: the derivative bound is a Lipschitz constant (mean value theorem, Problems/Locate.v) ----
+    lemma('c18_lipschitz', 'forall x y, %s <= x <= %s -> %s <= y <= %s -> Rabs (f_%s x - f_%s y) <= (%s * 1.001) * Rabs (x - y)' % (r(lo), r(hi), r(lo), r(hi), nm, nm, r(L)),
+          'apply (lipschitz_from_derivative f_%s df_%s); [exact c18_derivative_%s | exact c18_lipschitz_upper_%s].' % (nm, nm, nm, nm))
+    # ---- C18: every global extremiser lies within 1e-4 of the range of the tabulated one (Problems/Locate.v) ----
+    for tag, x0 in (('min', xmin), ('max', xmax)):
+        if tag == 'min' and p != xmin:      # separation relative to the tabulated minimiser (c10_sep_* is relative to the declared point)
+            if x0 - w > lo:
+                lemma('c18_min_sep_left', forall(lo, x0 - w, 'f_%s x0 - f_%s %s > 0' % (nm, nm, r(x0))), 'intros x0 H. %s interval with (%s).' % (un, OPT1))
+            if x0 + w < hi:
+                lemma('c18_min_sep_right', forall(x0 + w, hi, 'f_%s x0 - f_%s %s > 0' % (nm, nm, r(x0))), 'intros x0 H. %s interval with (%s).' % (un, OPT1))
+            sepl, sepr = 'c18_min_sep_left', 'c18_min_sep_right'
+        elif tag == 'min':
+            sepl, sepr = 'c10_sep_left', 'c10_sep_right'
+        else:
+            sepl, sepr = 'c18_max_sep_left', 'c18_max_sep_right'
+        locl, locr = 'c18_%s_loc_left' % tag, 'c18_%s_loc_right' % tag
+        wl = x0 - w if sepl in names else lo - 1.0
+        wr = x0 + w if sepr in names else hi + 1.0
+        tl = x0 - t if locl in names else lo - 1.0
+        tr = x0 + t if locr in names else hi + 1.0
+        use = lambda nme, tac: ('pose proof (%s_%s x ltac:(lra)); lra' % (nme, nm) if tac == 'sep' else 'apply %s_%s; lra' % (nme, nm)) if nme in names else 'exfalso; lra'
+        cmp_ = 'f_%s xm <= f_%s x' % (nm, nm) if tag == 'min' else 'f_%s x <= f_%s xm' % (nm, nm)
+        lemma('c18_%s_located' % tag,
+              'forall xm, %s <= xm <= %s -> (forall x, %s <= x <= %s -> %s) -> %s <= xm <= %s' % (r(lo), r(hi), r(lo), r(hi), cmp_, r(tl), r(tr)),
+              'apply (%s_located f_%s df_%s %s %s %s %s %s %s %s); [exact c18_derivative_%s | lra | lra | lra | intros x Hx; %s | intros x H1 H2; %s | intros x H1 H2; %s | intros x Hx; %s].'
+              % (tag, nm, nm, r(lo), r(hi), r(x0), r(wl), r(tl), r(tr), r(wr), nm, use(sepl, 'sep'), use(locl, 'loc'), use(locr, 'loc'), use(sepr, 'sep')))
     info = {'family': family, 'k': k, 'declared_point': p, 'declared_value': v, 'min': [vmin, xmin], 'max': [vmax, xmax], 'L': L, 'box': [lo, hi],
             'expr': f, 'dexpr': dtree}
     return '\n'.join(out) + '\n', names, info
